@@ -51,13 +51,18 @@ def _alarm(signum, frame):
     raise _Timeout()
 
 
-def timed(f, seconds=5.0):
-    """f() under an alarm: a decoder that does not come back is reported as the error 'Timeout'"""
+TIMEOUTS = [0]
+
+
+def timed(f, seconds=2.0):
+    """f() under an alarm: a decoder that does not come back is reported as the error 'Timeout'
+    (after 25 of them every further call gets 0.2 s only, so that a broken tree still ends)"""
     old = signal.signal(signal.SIGALRM, _alarm)
-    signal.setitimer(signal.ITIMER_REAL, seconds)
+    signal.setitimer(signal.ITIMER_REAL, seconds if TIMEOUTS[0] < 25 else min(seconds, 0.2))
     try:
         return f()
     except _Timeout:
+        TIMEOUTS[0] += 1
         return ("err", "Timeout")
     finally:
         signal.setitimer(signal.ITIMER_REAL, 0)
